@@ -242,8 +242,20 @@ pub fn replay_body(id: &str, o: &Oracles, case: &Case, msg: &str) -> Value {
     json!({"property": id, "engine": "history", "oracles": o, "case": case, "message": msg})
 }
 
+/// The campaign on the in-memory filesystem, then (C01, C10, C11) a smaller one on raindb's own
+/// disk-backed filesystem: real files, real directory listings, renames and unlinks.
 pub fn worker(ctx: &WorkerCtx) -> WorkerResult {
+    let mut r = worker_on(ctx, false);
+    if r.violations.is_empty() && matches!(ctx.id.as_str(), "C01" | "C10" | "C11") {
+        let d = worker_on(ctx, true);
+        r.merge(d);
+    }
+    r
+}
+
+fn worker_on(ctx: &WorkerCtx, disk: bool) -> WorkerResult {
     let mut sp = spec(&ctx.id).expect("history spec");
+    sp.oracles.disk = disk;
     let total = match ctx.tier {
         Tier::Quick => sp.quick_cases,
         Tier::Thorough => {
@@ -253,6 +265,7 @@ pub fn worker(ctx: &WorkerCtx) -> WorkerResult {
         }
     };
     let total = std::env::var("VERIF_CASES").ok().and_then(|s| s.parse().ok()).unwrap_or(total);
+    let total = if disk { (total / 24).max(16) } else { total };
     let cases = ctx.share(total);
     let known = open_findings_for(sp.id);
     let res = RefCell::new(WorkerResult::default());
@@ -260,9 +273,9 @@ pub fn worker(ctx: &WorkerCtx) -> WorkerResult {
     let hangs = RefCell::new(0u32);
     let mut runner = TestRunner::new(Config {
         cases: cases as u32,
-        rng_seed: RngSeed::Fixed(ctx.derived_seed(0)),
+        rng_seed: RngSeed::Fixed(ctx.derived_seed(if disk { 977 } else { 0 })),
         failure_persistence: None,
-        max_shrink_iters: if sp.termination { 150 } else { 3000 },
+        max_shrink_iters: if sp.termination { 150 } else if disk { 400 } else { 3000 },
         max_global_rejects: 10,
         ..Config::default()
     });
@@ -287,6 +300,9 @@ pub fn worker(ctx: &WorkerCtx) -> WorkerResult {
                 if counting {
                     r.evaluations += 1;
                     r.add_classes(&stats.classes);
+                    if disk {
+                        r.bump("cases_on_the_disk_backed_filesystem");
+                    }
                     if stats.nontrivial {
                         r.nontrivial_hashes.push(hash_json(&case));
                         if r.samples.len() < 3 {
